@@ -57,48 +57,158 @@ Section Live.
       eexists. split; [vm_compute; reflexivity|discriminate].
   Qed.
 
-  (** Origcurrency: the currency aggregate is CURRENCY if present, else ORIGCURRENCY; curtype is its class name, cursym / currate its
-      attributes; None when neither is present *)
-  Definition is_cur_class (cn : string) : bool :=
+
+  (** ---- class-table facts by evaluation ---- *)
+  Definition is_sc (cn n : string) (sc : shortcut) : bool :=
     match find_cls S cn with
-    | Some c =>
-      match assoc "currency" (ci_spec c), assoc "origcurrency" (ci_spec c) with
-      | Some (ASub _ _), Some (ASub _ _) =>
-        forallb (fun nw => match assoc (fst nw) (ci_spec c), class_attr LT cn (fst nw) with
-                           | None, Some (KShortcut (SCCur "currency" "origcurrency" w)) => opt_str_eqb w (snd nw)
-                           | _, _ => false end)
-                [("curtype", None); ("cursym", Some "cursym"); ("currate", Some "currate")]
-      | _, _ => false
-      end
+    | Some c => match assoc n (ci_spec c) with
+                | None => match class_attr LT cn n with Some k => ckind_eqb k (KShortcut sc) | None => false end
+                | Some _ => false
+                end
     | None => false
     end.
-  Lemma cur_classes_ok : forallb is_cur_class cur_classes = true.
-  Proof. vm_compute. reflexivity. Qed.
-
-  Lemma cur_class_facts cn : In cn cur_classes -> exists c,
-      find_cls S cn = Some c /\
-      (exists t1, assoc "currency" (ci_spec c) = Some t1 /\ t1 <> AUnsupported) /\
-      (exists t2, assoc "origcurrency" (ci_spec c) = Some t2 /\ t2 <> AUnsupported) /\
-      (assoc "curtype" (ci_spec c) = None /\ class_attr LT cn "curtype" = Some (KShortcut (SCCur "currency" "origcurrency" None))) /\
-      (assoc "cursym" (ci_spec c) = None /\ class_attr LT cn "cursym" = Some (KShortcut (SCCur "currency" "origcurrency" (Some "cursym")))) /\
-      (assoc "currate" (ci_spec c) = None /\ class_attr LT cn "currate" = Some (KShortcut (SCCur "currency" "origcurrency" (Some "currate")))).
-  Proof.
-    intro Hin. pose proof cur_classes_ok as H. rewrite forallb_forall in H. specialize (H _ Hin). unfold is_cur_class in H.
-    destruct (find_cls S cn) as [c|]; [|discriminate]. exists c. split; [reflexivity|].
-    destruct (assoc "currency" (ci_spec c)) as [[| t1 r1 | | |]|]; try discriminate.
-    destruct (assoc "origcurrency" (ci_spec c)) as [[| t2 r2 | | |]|]; try discriminate.
-    split; [eexists; split; [reflexivity|discriminate]|]. split; [eexists; split; [reflexivity|discriminate]|].
-    cbn [forallb fst snd] in H.
-    repeat match type of H with (_ && _)%bool = true => apply andb_true_iff in H; destruct H as [?H H] end.
-    assert (Hrow : forall n w, match assoc n (ci_spec c), class_attr LT cn n with
-                               | None, Some (KShortcut (SCCur "currency" "origcurrency" w')) => opt_str_eqb w' w
-                               | _, _ => false end = true ->
-                               assoc n (ci_spec c) = None /\ class_attr LT cn n = Some (KShortcut (SCCur "currency" "origcurrency" w))).
-    { intros n w Hr. destruct (assoc n (ci_spec c)); [discriminate|]. split; [reflexivity|].
-      destruct (class_attr LT cn n) as [[sc|]|]; try discriminate. destruct sc as [| |a1 a2 w'| | | | |]; try discriminate.
-      destruct (string_dec a1 "currency") as [->|Hn1]; [|exfalso; revert Hr; clear - Hn1; intro Hr;
-        repeat match type of Hr with match ?s with EmptyString => _ | String _ _ => _ end = true => destruct s; try discriminate end; admit_free a1 Hn1 Hr].
-      admit. }
-    admit.
-  Admitted.
+  Definition has_sub (cn a : string) : bool :=
+    match find_cls S cn with
+    | Some c => match assoc a (ci_spec c) with Some (ASub _ _) => true | _ => false end
+    | None => false
+    end.
 End Live.
+
+Lemma strs_eqb_eq a b : strs_eqb a b = true -> a = b.
+Proof. apply (proj1 (list_eqb_eq String.eqb String.eqb_eq a b)). Qed.
+Lemma opt_str_eqb_eq a b : opt_str_eqb a b = true -> a = b.
+Proof. destruct a, b; cbn; try discriminate; [intro H; apply String.eqb_eq in H; subst|]; reflexivity. Qed.
+Lemma pair_str_eqb_iff (x y : string * string) : pair_eqb String.eqb String.eqb x y = true <-> x = y.
+Proof.
+  destruct x as [a b], y as [a' b']. unfold pair_eqb. cbn [fst snd]. rewrite andb_true_iff, !String.eqb_eq.
+  split; [intros [-> ->]; reflexivity|intro E; injection E; auto].
+Qed.
+Lemma tests_eqb_eq a b : list_eqb (pair_eqb String.eqb String.eqb) a b = true -> a = b.
+Proof. apply (proj1 (list_eqb_eq _ pair_str_eqb_iff a b)). Qed.
+Ltac sb := repeat match goal with
+  | H : (_ && _)%bool = true |- _ => apply andb_true_iff in H; destruct H
+  | H : String.eqb _ _ = true |- _ => apply String.eqb_eq in H; subst
+  | H : strs_eqb _ _ = true |- _ => apply strs_eqb_eq in H; subst
+  | H : opt_str_eqb _ _ = true |- _ => apply opt_str_eqb_eq in H; subst
+  | H : Bool.eqb _ _ = true |- _ => apply Bool.eqb_prop in H; subst
+  | H : list_eqb (pair_eqb String.eqb String.eqb) _ _ = true |- _ => apply tests_eqb_eq in H; subst
+  end.
+Lemma shortcut_eqb_eq a b : shortcut_eqb a b = true -> a = b.
+Proof. destruct a, b; cbn [shortcut_eqb]; try discriminate; intro H; sb; reflexivity. Qed.
+Lemma ckind_eqb_eq a b : ckind_eqb a b = true -> a = b.
+Proof. destruct a, b; cbn [ckind_eqb]; try discriminate; intro H; [apply shortcut_eqb_eq in H; subst|]; reflexivity. Qed.
+
+Lemma is_sc_spec cn n sc : is_sc cn n sc = true ->
+  exists c, find_cls S cn = Some c /\ assoc n (ci_spec c) = None /\ class_attr LT cn n = Some (KShortcut sc).
+Proof.
+  unfold is_sc. destruct (find_cls S cn) as [c|]; [|discriminate]. destruct (assoc n (ci_spec c)) eqn:Es; [discriminate|].
+  destruct (class_attr LT cn n) as [k|]; [|discriminate]. intro H. apply ckind_eqb_eq in H. subst k. exists c. auto.
+Qed.
+Lemma has_sub_spec cn a c : find_cls S cn = Some c -> has_sub cn a = true -> exists t, assoc a (ci_spec c) = Some t /\ t <> AUnsupported.
+Proof.
+  unfold has_sub. intros ->. destruct (assoc a (ci_spec c)) as [[| t r | | |]|]; try discriminate. intros _. eexists. split; [reflexivity|discriminate].
+Qed.
+
+Definition cur_class_ok (cn : string) : bool :=
+  has_sub cn "currency" && has_sub cn "origcurrency"
+  && is_sc cn "curtype" (SCCur "currency" "origcurrency" None)
+  && is_sc cn "cursym" (SCCur "currency" "origcurrency" (Some "cursym"))
+  && is_sc cn "currate" (SCCur "currency" "origcurrency" (Some "currate")).
+Lemma cur_classes_ok : forallb cur_class_ok cur_classes = true.
+Proof. vm_compute. reflexivity. Qed.
+
+(** (message set class, [(wrapper class, attribute holding its statement or closing statement)]) - from the property text *)
+Definition msgset_tests_spec : list (string * list (string * string)) :=
+  [ ("BANKMSGSRQV1", [("STMTTRNRQ", "stmtrq"); ("STMTENDTRNRQ", "stmtendrq")]);
+    ("CREDITCARDMSGSRQV1", [("CCSTMTTRNRQ", "ccstmtrq"); ("CCSTMTENDTRNRQ", "ccstmtendrq")]);
+    ("INVSTMTMSGSRQV1", [("INVSTMTTRNRQ", "invstmtrq")]);
+    ("BANKMSGSRSV1", [("STMTTRNRS", "stmtrs"); ("STMTENDTRNRS", "stmtendrs")]);
+    ("CREDITCARDMSGSRSV1", [("CCSTMTTRNRS", "ccstmtrs"); ("CCSTMTENDTRNRS", "ccstmtendrs")]);
+    ("INVSTMTMSGSRSV1", [("INVSTMTTRNRS", "invstmtrs")]) ].
+Definition msgset_row_ok (r : string * list (string * string)) : bool :=
+  match wrapped_desc LT (fst r) "statements" with
+  | Some (_, _, t) => list_eqb (pair_eqb String.eqb String.eqb) t (snd r)
+  | None => false
+  end.
+
+Section Live2.
+  Variable sval : Type.
+  Variable fx : bool.
+  Notation inst := (inst sval).
+  Notation getattr := (getattr_m sval fx S LT).
+
+  (** Origcurrency: the currency aggregate is CURRENCY when present, else ORIGCURRENCY; curtype is its class name, cursym / currate
+      are its attributes; None when neither is present *)
+  Theorem currency_shortcuts_l cn fs ms j : In cn cur_classes -> cur_path sval fs "currency" "origcurrency" = Some j ->
+    getattr (Inst sval cn fs ms) "curtype" = OK (PName sval (icls sval j)) /\
+    (forall v, getattr j "cursym" = OK v -> getattr (Inst sval cn fs ms) "cursym" = OK v) /\
+    (forall v, getattr j "currate" = OK v -> getattr (Inst sval cn fs ms) "currate" = OK v).
+  Proof.
+    intros Hin Hp. pose proof cur_classes_ok as H. rewrite forallb_forall in H. specialize (H _ Hin). unfold cur_class_ok in H. sb.
+    match goal with H : is_sc cn "curtype" _ = true |- _ => destruct (is_sc_spec _ _ _ H) as (c & Hc & Hs1 & Hk1) end.
+    match goal with H : is_sc cn "cursym" _ = true |- _ => destruct (is_sc_spec _ _ _ H) as (c2 & Hc2 & Hs2 & Hk2) end.
+    match goal with H : is_sc cn "currate" _ = true |- _ => destruct (is_sc_spec _ _ _ H) as (c3 & Hc3 & Hs3 & Hk3) end.
+    rewrite Hc in Hc2, Hc3. injection Hc2 as <-. injection Hc3 as <-.
+    match goal with H : has_sub cn "currency" = true |- _ => pose proof (has_sub_spec _ _ c Hc H) as A1 end.
+    match goal with H : has_sub cn "origcurrency" = true |- _ => pose proof (has_sub_spec _ _ c Hc H) as A2 end.
+    split; [|split].
+    - apply to_result_ok. exact (cur_core sval fx S LT cn fs ms "curtype" _ _ None c j Hc Hs1 Hk1 A1 A2 Hp).
+    - intros v Hv. apply to_result_ok. apply to_result_ok in Hv.
+      exact (cur_core sval fx S LT cn fs ms "cursym" _ _ (Some "cursym") c j Hc Hs2 Hk2 A1 A2 Hp v Hv).
+    - intros v Hv. apply to_result_ok. apply to_result_ok in Hv.
+      exact (cur_core sval fx S LT cn fs ms "currate" _ _ (Some "currate") c j Hc Hs3 Hk3 A1 A2 Hp v Hv).
+  Qed.
+  Theorem currency_none_l cn fs ms n : In cn cur_classes -> In n ["curtype"; "cursym"; "currate"] ->
+    assoc "currency" fs = Some (FNone sval) -> assoc "origcurrency" fs = Some (FNone sval) ->
+    getattr (Inst sval cn fs ms) n = OK (PNone sval).
+  Proof.
+    intros Hin Hn E1 E2. pose proof cur_classes_ok as H. rewrite forallb_forall in H. specialize (H _ Hin). unfold cur_class_ok in H. sb.
+    match goal with H : is_sc cn "curtype" _ = true |- _ => destruct (is_sc_spec _ _ _ H) as (c & Hc & Hs1 & Hk1) end.
+    match goal with H : is_sc cn "cursym" _ = true |- _ => destruct (is_sc_spec _ _ _ H) as (c2 & Hc2 & Hs2 & Hk2) end.
+    match goal with H : is_sc cn "currate" _ = true |- _ => destruct (is_sc_spec _ _ _ H) as (c3 & Hc3 & Hs3 & Hk3) end.
+    rewrite Hc in Hc2, Hc3. injection Hc2 as <-. injection Hc3 as <-.
+    match goal with H : has_sub cn "currency" = true |- _ => pose proof (has_sub_spec _ _ c Hc H) as A1 end.
+    match goal with H : has_sub cn "origcurrency" = true |- _ => pose proof (has_sub_spec _ _ c Hc H) as A2 end.
+    apply to_result_ok. destruct Hn as [<-|[<-|[<-|[]]]].
+    - exact (cur_none_core sval fx S LT cn fs ms _ _ _ _ c Hc Hs1 Hk1 A1 A2 E1 E2).
+    - exact (cur_none_core sval fx S LT cn fs ms _ _ _ _ c Hc Hs2 Hk2 A1 A2 E1 E2).
+    - exact (cur_none_core sval fx S LT cn fs ms _ _ _ _ c Hc Hs3 Hk3 A1 A2 E1 E2).
+  Qed.
+
+  (** OFX.signon = signonmsgsrqv1.sonrq, else signonmsgsrsv1.sonrs *)
+  Lemma ofx_signon_facts : is_sc "OFX" "signon" (SCSignon "signonmsgsrqv1" "sonrq" "signonmsgsrsv1" "sonrs") = true
+                           /\ has_sub "OFX" "signonmsgsrqv1" = true /\ has_sub "OFX" "signonmsgsrsv1" = true.
+  Proof. vm_compute. auto. Qed.
+  Theorem ofx_signon_l fs ms :
+    (forall j v, assoc "signonmsgsrqv1" fs = Some (FSub sval j) -> getattr j "sonrq" = OK v -> getattr (Inst sval "OFX" fs ms) "signon" = OK v) /\
+    (forall j v, assoc "signonmsgsrqv1" fs = Some (FNone sval) -> assoc "signonmsgsrsv1" fs = Some (FSub sval j) -> getattr j "sonrs" = OK v ->
+                 getattr (Inst sval "OFX" fs ms) "signon" = OK v).
+  Proof.
+    destruct ofx_signon_facts as (H1 & H2 & H3). destruct (is_sc_spec _ _ _ H1) as (c & Hc & Hs & Hk).
+    destruct (signon_core sval fx S LT "OFX" fs ms "signon" _ _ _ _ c Hc Hs Hk (has_sub_spec _ _ c Hc H2) (has_sub_spec _ _ c Hc H3)) as [A B].
+    split.
+    - intros j v E Hv. apply to_result_ok. apply to_result_ok in Hv. exact (A j v E Hv).
+    - intros j v E1 E2 Hv. apply to_result_ok. apply to_result_ok in Hv. exact (B j v E1 E2 Hv).
+  Qed.
+
+  (** OFX.statements walks the six message sets in this order *)
+  Theorem ofx_statements_live_l (i : inst) : icls sval i = "OFX" -> concat_ok_b sval S LT "statements" i = true ->
+    getattr i "statements" =
+    OK (PList sval (map (PInst sval)
+         (flat_map (fun a => match assoc a (ifields sval i) with Some (FSub _ j) => walk_of sval S LT "statements" j | _ => [] end) stmt_msgsets))).
+  Proof.
+    intros Hc Hok. rewrite (proj1 (statements_is_path_walk_l sval S LT fx "statements" i) Hok). unfold concat_walk. rewrite Hc.
+    replace (concat_desc LT "OFX" "statements") with (Some (stmt_msgsets, "statements")) by (vm_compute; reflexivity). reflexivity.
+  Qed.
+
+  (** each message set walks its wrappers with the tests of the specification (closing statements included) *)
+  Theorem msgset_statements_live_l cn tests fs ms :
+    forallb msgset_row_ok msgset_tests_spec = true ->
+    In (cn, tests) msgset_tests_spec -> wrapped_ok_b sval S LT "statements" (Inst sval cn fs ms) = true ->
+    getattr (Inst sval cn fs ms) "statements" = OK (PList sval (map (PInst sval) (walk_members sval S tests ms))).
+  Proof.
+    intros Hall Hin Hok. rewrite forallb_forall in Hall. specialize (Hall _ Hin). unfold msgset_row_ok in Hall. cbn [fst snd] in Hall.
+    rewrite (proj2 (statements_is_path_walk_l sval S LT fx "statements" (Inst sval cn fs ms)) Hok). unfold walk_of. cbn [icls imembers].
+    destruct (wrapped_desc LT cn "statements") as [[[st ea] t]|]; [|discriminate]. apply tests_eqb_eq in Hall. subst t. reflexivity.
+  Qed.
+End Live2.
